@@ -106,7 +106,7 @@ class RequestDownload(BaseService):
             todecode[-i] = response.data[lfid + 1 - i]
 
         response.service_data = cls.ResponseData(
-            max_length=struct.unpack('>q', todecode)[0]
+            max_length=struct.unpack('>Q', todecode)[0]
         )
 
         return cast(RequestDownload.InterpretedResponse, response)
